@@ -7,5 +7,5 @@
 import sys, json
 sys.path.insert(0, '/verif')
 from engine.pysym import env
-SPEC = json.loads('{"prop": "C01", "key": "py:IndexError@CodedOutputStream.write_byte_no_check<-StreamSerializer.write#1", "obligation": "ser.write-no-unexpected-exception", "job": {"harness": "harness.py.kernels:h_ser_write", "params": {"t": ["stream", ["uint8"]], "N": 16, "maxlen": 3, "variant": "generator"}, "limits": {"budget_s": 240, "max_paths": 40000}, "hooks": null}, "inputs": {"v.0": -18446744073709551615, "w.off": 16, "w.junk0": 0, "w.junk1": 0, "w.junk2": 0, "w.junk3": 0, "w.junk4": 0, "w.junk5": 0, "w.junk6": 0, "w.junk7": 0, "w.junk8": 0, "w.junk9": 0, "w.junk10": 0, "w.junk11": 0, "w.junk12": 0, "w.junk13": 0, "w.junk14": 0, "w.junk15": 0, "v.len": 1}}')
+SPEC = json.loads('{"prop": "C01", "key": "py:IndexError@CodedOutputStream.write_byte_no_check<-StreamSerializer.write#1", "obligation": "ser.write-no-unexpected-exception", "job": {"harness": "harness.py.kernels:h_ser_write", "params": {"t": ["stream", ["uint8"]], "N": 16, "maxlen": 3, "variant": "generator"}, "limits": {"budget_s": 240, "max_paths": 40000, "xcheck_every": 40}, "hooks": null}, "inputs": {"v.0": -18446744073709551615, "w.off": 16, "w.junk0": 0, "w.junk1": 0, "w.junk2": 0, "w.junk3": 0, "w.junk4": 0, "w.junk5": 0, "w.junk6": 0, "w.junk7": 0, "w.junk8": 0, "w.junk9": 0, "w.junk10": 0, "w.junk11": 0, "w.junk12": 0, "w.junk13": 0, "w.junk14": 0, "w.junk15": 0, "v.len": 1}}')
 sys.exit(env.replay_main(SPEC))
